@@ -419,6 +419,8 @@ def close(x, iv, rtol=RTOL):
         return False
     lo, hi = iv
     tol = Fraction(rtol) * max(1, abs(lo), abs(hi))
+    if not math.isfinite(x):
+        return False
     return lo - tol <= Fraction(x) <= hi + tol
 
 
